@@ -1,0 +1,90 @@
+//go:build verif
+
+package util
+
+// Contracts for gvc (the /verif condition generator). Comment-only: nothing here is compiled
+// into the library; the file exists only under the build tag "verif".
+
+/*@
+fun isSpace(c int) bool = spaceTable[c] == 1
+fun isPunct(c int) bool = punctTable[c] == 1
+fun isHex(c int) bool = c >= '0' && c <= '9' || c >= 'a' && c <= 'f' || c >= 'A' && c <= 'F'
+fun needsHTMLEscape(c int) bool = c == '"' || c == '&' || c == '<' || c == '>'
+
+func IsSpace
+  ensures result <==> isSpace(c)
+  modifies nothing
+func IsPunct
+  ensures result <==> isPunct(c)
+  modifies nothing
+func IsNumeric
+  ensures result <==> (c >= '0' && c <= '9')
+  modifies nothing
+func IsHexDecimal
+  ensures result <==> isHex(c)
+  modifies nothing
+func IsAlphaNumeric
+  ensures result <==> (c >= 'a' && c <= 'z' || c >= 'A' && c <= 'Z' || c >= '0' && c <= '9')
+  modifies nothing
+func UTF8Len
+  ensures result == utf8lenTable[b]
+  modifies nothing
+func TabWidth
+  ensures currentPos >= 0 ==> result == 4 - currentPos % 4
+  ensures currentPos >= 0 ==> 1 <= result && result <= 4
+  modifies nothing
+
+func IsEscapedPunctuation
+  requires 0 <= i && i < len(source)
+  ensures result <==> (source[i] == '\\' && i < len(source)-1 && isPunct(source[i+1]))
+  modifies nothing
+
+func TrimLeftSpaceLength
+  ensures 0 <= result && result <= len(source)
+  ensures forall k int :: 0 <= k && k < result ==> isSpace(source[k])
+  ensures result < len(source) ==> !isSpace(source[result])
+  modifies nothing
+  loop 0 inv 0 <= i && i <= len(source)
+  loop 0 inv forall k int :: 0 <= k && k < i ==> isSpace(source[k])
+  loop 0 dec len(source) - i
+
+func TrimRightSpaceLength
+  ensures 0 <= result && result <= len(source)
+  ensures forall k int :: len(source)-result <= k && k < len(source) ==> isSpace(source[k])
+  ensures result < len(source) ==> !isSpace(source[len(source)-result-1])
+  modifies nothing
+  loop 0 inv -1 <= i && i < l && l == len(source)
+  loop 0 inv forall k int :: i < k && k < l ==> isSpace(source[k])
+  loop 0 dec i + 1
+
+func NewCopyOnWriteBuffer
+  ensures sameslice(result.buffer, buffer) && !result.copied
+  modifies nothing
+
+func (*CopyOnWriteBuffer).IsCopied
+  ensures result == b.copied
+  modifies nothing
+func (*CopyOnWriteBuffer).Bytes
+  ensures sameslice(result, b.buffer)
+  modifies nothing
+
+func (*CopyOnWriteBuffer).Write
+  ensures b.copied
+  ensures old(b.copied) ==> len(b.buffer) == old(len(b.buffer)) + len(value)
+  ensures !old(b.copied) ==> len(b.buffer) == len(value)
+  ensures old(b.copied) ==> (forall k int :: 0 <= k && k < old(len(b.buffer)) ==> b.buffer[k] == old(b.buffer[k]))
+  ensures forall k int :: 0 <= k && k < len(value) ==> b.buffer[len(b.buffer)-len(value)+k] == old(value[k])
+  ensures fresh(b.buffer) || (old(b.copied) && arrof(b.buffer) == old(arrof(b.buffer)))
+  ensures !old(b.copied) ==> samecontents(old(b.buffer))
+  modifies b.buffer, b.copied, contents(b.buffer)
+
+func (*CopyOnWriteBuffer).WriteByte
+  ensures b.copied
+  ensures old(b.copied) ==> len(b.buffer) == old(len(b.buffer)) + 1
+  ensures !old(b.copied) ==> len(b.buffer) == 1
+  ensures old(b.copied) ==> (forall k int :: 0 <= k && k < old(len(b.buffer)) ==> b.buffer[k] == old(b.buffer[k]))
+  ensures b.buffer[len(b.buffer)-1] == c
+  ensures fresh(b.buffer) || (old(b.copied) && arrof(b.buffer) == old(arrof(b.buffer)))
+  ensures !old(b.copied) ==> samecontents(old(b.buffer))
+  modifies b.buffer, b.copied, contents(b.buffer)
+@*/
